@@ -629,7 +629,6 @@ def coverage(agg, tier):
         "e2_outcomes": agg.get("outcomes", {}),
         "solver_s": round(agg.get("solver_s", 0.0), 1),
         "trees_by_width_family1": agg.get("trees_by_width", {}),
-        "samples": agg.get("samples", []),
         "bounds": {
             "family1": "trees of depth<=1 (all), depth 2 and reduced depth 3 (quick: seed-selected 2500 per width; thorough: all) over leaves {reg, boundary constants, register slice, 2-part composition}; widths quick {8,32}, thorough {1,8,16,32,64,128}; complexity in {0,5}; stages build/simplify/simplify(bitslice)/simplify(widening); all register values",
             "family2": "depth<=1 trees (thorough: + 3000 depth-2) at width 8 (thorough: 8,16), every leaf register bound to a symbolic constant; all leaf values; paths<=400 per tree",
